@@ -603,7 +603,13 @@ pub fn judge(case: &Case, reports: &[TunnelReport], aspect: Aspect, info: &mut C
                     if !c2s.starts_with(&r.origin_got) {
                         return Err(Failure::new(format!("c2s-corrupted:fault:{}", shape), format!("tunnel {}: bytes at the origin are not a prefix of what the client sent", k)));
                     }
-                    if !s2c.starts_with(&r.client_got) && r.client_head.is_some() {
+                    // a failure response (e.g. 503 with its body) is not tunnel payload
+                    let tunnelled = match (&r.client_head, http_listener) {
+                        (Some(h), true) => rc::parse_http_head(h, true).map(|x| x.start.1 == b"200").unwrap_or(false),
+                        (Some(_), false) => true,
+                        (None, _) => false,
+                    };
+                    if tunnelled && !s2c.starts_with(&r.client_got) {
                         return Err(Failure::new(format!("s2c-corrupted:fault:{}", shape), format!("tunnel {}: bytes at the client are not a prefix of what the origin sent", k)));
                     }
                 }
